@@ -215,7 +215,7 @@ PROPERTIES = {
         assumptions=[SHAPE_ASSUMPTION],
     ),
     "C06": dict(
-        rules=[S2.rule_fold, S2.rule_sort, S2.rule_rettype, R.rule_report_raises],
+        rules=[S2.rule_fold, S2.rule_sort, S2.rule_rettype, R.rule_report_raises, S2.rule_collect],
         explanation=(
             "Clauses decided: (1) is_valid / num_failures / num_rules_tested are order-insensitive reducers (all / sum) of the per-rule attribute over all rule tests; rule_tests tests every rule once "
             "on the same document and copy; validate builds a fresh result each call; (2) every binding of Schema.rules is sorted(<all rules>, key=len(path)) - stable, ascending; "
@@ -246,7 +246,7 @@ PROPERTIES = {
         assumptions=COMMON_ASSUMPTIONS + ["callees unknown to the analyser are assumed not to mutate their arguments (counted as 'unmodelled' events in the evidence)"],
     ),
     "C09": dict(
-        rules=[SG.rule_sig, SG.rule_tables_c09, SG.rule_ladder, RF.rule_reflect, SG.rule_tokens, SH.rule_tt_c02, r_global_c09],
+        rules=[SG.rule_sig, SG.rule_tables_c09, SG.rule_ladder, RF.rule_reflect, SG.rule_tokens, SH.rule_tt_c02, r_global_c09, S2.rule_precoerce],
         explanation=(
             "Clauses decided: every DSL constructor is reachable from a spec and means the same comparison - (1) constructor <-> callable name, parameters, "
             "kinds, storage and reachability after lower-casing (R-SIG); (2) alias / pre-processor / type-name / operator / datum tables are closed and consistent "
@@ -267,7 +267,7 @@ PROPERTIES = {
         assumptions=COMMON_ASSUMPTIONS + [SHAPE_ASSUMPTION],
     ),
     "C12": dict(
-        rules=[S2.rule_guarded, r_pure_ser("R-PURE/C12", ["to_part_specs", "simplify"], ["path"]), S2.rule_names, SH.rule_tt_c02, R.rule_c19_raises],
+        rules=[S2.rule_guarded, r_pure_ser("R-PURE/C12", ["to_part_specs", "simplify"], ["path"]), S2.rule_names, SH.rule_tt_c02, R.rule_c19_raises, S2.rule_eqwrite],
         explanation=(
             "Clause decided: a primitive or bare-type part spec is emitted only under guards that establish its meaning, otherwise serialisation raises - simplify() emits the 'value' argument "
             "only for a single Key/Index equal_to condition of the right part class (full guard sets checked), to_part_specs never reads a condition's argument directly, emits a bare type only "
@@ -277,7 +277,7 @@ PROPERTIES = {
         assumptions=[SHAPE_ASSUMPTION] + COMMON_ASSUMPTIONS[:2],
     ),
     "C13": dict(
-        rules=[S2.rule_fields, SG.rule_castinv, r_pure_ser("R-PURE/C13", ["rule_to_json", "schema_to_json"], ["rule", "schema"]), S2.rule_sort, S2.rule_eq_const_fields, R.rule_c19_raises],
+        rules=[S2.rule_fields, SG.rule_castinv, r_pure_ser("R-PURE/C13", ["rule_to_json", "schema_to_json"], ["rule", "schema"]), S2.rule_sort, S2.rule_eq_const_fields, R.rule_c19_raises, S2.rule_eqwrite],
         explanation=(
             "Clauses decided: (1) Rule.to_json_like emits only JSON-typed fields (condition / path through their own serialisers, cast as type names), the keys it writes are the keys from_spec reads, "
             "schemas map their rule list element-wise; (2) by finite evaluation over CAST_LOOKUP, what the writer emits for each cast parses back to the same cast; "
@@ -306,7 +306,7 @@ PROPERTIES = {
         assumptions=COMMON_ASSUMPTIONS + [SHAPE_ASSUMPTION],
     ),
     "C16": dict(
-        rules=[r_pure_c16, S2.rule_noclosure],
+        rules=[r_pure_c16, S2.rule_noclosure, S2.rule_eq_const_fields],
         explanation=(
             "Ownership / mutation analysis of the ten parse entry points (ConditionLike/DataPath/ContainerValue/Rule/Schema from_spec, "
             "from_json_like, from_part_specs, init_rules) with the spec argument as protected origin: every store / mutating call reachable "
@@ -317,7 +317,7 @@ PROPERTIES = {
         assumptions=COMMON_ASSUMPTIONS,
     ),
     "C17": dict(
-        rules=[S2.rule_thread, S2.rule_depth, r_pure_c17, SG.rule_tokens, r_raise_c03],
+        rules=[S2.rule_thread, S2.rule_depth, r_pure_c17, SG.rule_tokens, r_raise_c03, S2.rule_precoerce],
         explanation=(
             "Clauses decided: (1) source_data is forwarded unchanged along every call edge from the rule test to argument resolution; (2) the resolver descends into every container kind in which the parser "
             "can place a path object (lists, tuples, mapping values), resolves with get_data(source_data, return_paths=False) and builds new containers; the parser stores whatever DataPath.from_spec returns "
@@ -327,7 +327,7 @@ PROPERTIES = {
         assumptions=COMMON_ASSUMPTIONS + [SHAPE_ASSUMPTION],
     ),
     "C18": dict(
-        rules=[r_pure_c18, r_alias_c18, S2.rule_once_c18, S2.rule_sort, S2.rule_writers, S2.rule_derived],
+        rules=[r_pure_c18, r_alias_c18, S2.rule_once_c18, S2.rule_sort, S2.rule_writers, S2.rule_derived, S2.rule_reroot],
         explanation=(
             "Clauses decided: (1) add_schema performs no store into the added schema, the root path or anything reachable from them (mutation analysis) and does not share the added schema's rule list with the receiver; "
             "(2) exactly one re-rooted rule (root_path / rule.path) is appended per rule of the added schema on every path; the result is re-sorted by path length; "
@@ -336,7 +336,7 @@ PROPERTIES = {
         assumptions=COMMON_ASSUMPTIONS + [SHAPE_ASSUMPTION],
     ),
     "C19": dict(
-        rules=[RF.rule_reflect, R.rule_c19_raises, P.rule_newinit, SG.rule_tokens, S2.rule_swallow],
+        rules=[RF.rule_reflect, R.rule_c19_raises, P.rule_newinit, SG.rule_tokens, S2.rule_swallow, S2.rule_popuse, S2.rule_arity],
         explanation=(
             "Exception-effect analysis of the ten parse entry points with the spec as tainted input of unknown JSON type: every operation on a "
             "spec-derived value (attribute / method access, subscripts, next(iter()), unpacking, table lookups keyed by spec tokens) and every "
@@ -350,7 +350,7 @@ PROPERTIES = {
 }
 
 PROPERTIES["C20"] = dict(
-    rules=[H.rule_taint, H.rule_balance, H.rule_defassign, H.rule_order, H.rule_always, r_pure_c20, H.rule_nodekey],
+    rules=[H.rule_taint, H.rule_balance, H.rule_defassign, H.rule_order, H.rule_always, r_pure_c20, H.rule_nodekey, H.rule_exhaust],
     explanation=(
         "Clauses decided: (1) in write_tree_html every schema-derived value (nested_tree, _path and everything derived) reaches the returned string only through html.escape "
         "(taint analysis of every assignment that flows into the output; sanitiser html.escape; recursive call by induction); (2) on every path through the per-child body the "
